@@ -11,6 +11,7 @@ import (
 	"path/filepath"
 	"strings"
 	"sync"
+	"sync/atomic"
 	"testing"
 	"time"
 
@@ -34,6 +35,8 @@ type Step struct {
 	Seed int    `json:"seed"`
 	// Chunk: the sender writes in pieces of this size (0 = one write)
 	Chunk int `json:"chunk"`
+	// PauseMS (p2c): the peer thinks this long before it sends (the client's read is parked)
+	PauseMS int `json:"pause_ms,omitempty"`
 }
 
 // PipeCase is a byte-pipe scenario over one built-in transport.
@@ -131,6 +134,8 @@ func genPipe(t *rapid.T) PipeCase {
 			N:     sz,
 			Seed:  rapid.IntRange(1, 1<<20).Draw(t, "seed"),
 			Chunk: rapid.SampledFrom([]int{0, 0, 1, 7, 1000}).Draw(t, "chunk"),
+			// longer than the telnet socket timeout (160 ms): an idle session is not a dead one
+			PauseMS: rapid.SampledFrom([]int{0, 0, 0, 0, 0, 400}).Draw(t, "pauseMS"),
 		})
 	}
 
@@ -141,15 +146,24 @@ const syncMarker = "\nVERIF-READY\n"
 
 // peerRun executes the peer's side of the script over rw; returns a description of the first
 // mismatch ("" = fine).
+// markerWritten: the in-process peer of the current case got as far as writing the marker.
+var markerWritten atomic.Bool
+
 func peerRun(c *PipeCase, rw io.ReadWriter) string {
 	if _, err := io.WriteString(rw, syncMarker); err != nil {
 		return "peer: cannot send the sync marker: " + err.Error()
 	}
 
+	markerWritten.Store(true)
+
 	run := func(s Step) string {
 		want := payload(c.Flavour, s.Seed, s.N)
 
 		if s.Dir == "p2c" {
+			if s.PauseMS > 0 {
+				time.Sleep(time.Duration(s.PauseMS) * time.Millisecond)
+			}
+
 			chunk := s.Chunk
 			if chunk <= 0 {
 				chunk = len(want)
@@ -237,6 +251,8 @@ func noLogger() *logging.Instance {
 }
 
 func runPipe(c PipeCase) ev.Verdict {
+	markerWritten.Store(false)
+
 	dir, err := os.MkdirTemp("", "verif-c16-")
 	if err != nil {
 		return ev.Verdict{OK: false, Msg: "INFRA: " + err.Error()}
@@ -476,6 +492,13 @@ func runPipe(c PipeCase) ev.Verdict {
 						c.ReadSize, c.Early, len(syncMarker), inbuf)
 				}
 
+				if strings.HasPrefix(c.Flavour, "standard-") && markerWritten.Load() {
+					// in-process ssh server: the handler ran and wrote the marker as the very first
+					// bytes of the session
+					return ev.Fail("%s read size %d: the first %d bytes the peer sent on the session (%q) were not all returned by reads within 15 s (got %q)",
+						c.Flavour, c.ReadSize, len(syncMarker), syncMarker, inbuf)
+				}
+
 				return ev.Verdict{OK: true, Infeasible: true, Classes: []string{"session-not-up"}, Note: fmt.Sprintf("%q", inbuf)}
 			}
 		}
@@ -698,8 +721,11 @@ func runBig(t *testing.T) {
 					continue
 				}
 
-				c := PipeCase{Flavour: fl, ReadSize: rs, CloseBy: []string{"client", "peer"}[idx%2],
-					Steps: []Step{{Dir: dir, N: 65536, Seed: 7000 + idx}, {Dir: "p2c", N: 3, Seed: 1 + idx}}}
+				// 64 kB exactly, and a size well above it that is not a power of two
+				n := []int{65536, 200003}[idx%2]
+
+				c := PipeCase{Flavour: fl, ReadSize: rs, CloseBy: []string{"client", "peer"}[(idx/2)%2],
+					Steps: []Step{{Dir: dir, N: n, Seed: 7000 + idx}, {Dir: "p2c", N: 3, Seed: 1 + idx, PauseMS: 400 * (idx % 2)}}}
 				v := pipeProp.Exec(t, c)
 				ran++
 				ev.RecordExternal("big", c, v)
